@@ -521,3 +521,54 @@ def new_async_helpers(facts, b):
                    if st[0] == "A" and st[2][0] == "agg" and st[2][1][0] == "coroutine" and st[2][1][1] == res]
             out.append((facts.body(res), ops[0] if ops else list(c0.args)))
     return out
+
+
+def zero_count_targets(b, call):
+    """[(switch block, successor taken when the count is 0)] for every branch that separates a zero count from every positive one,
+    where the tested value derives from `call`'s result (a counting read): `n == 0`, `n != 0`, `n > 0`, `n < 1`, `n <= 0`, `n >= 1`,
+    operands in either order, or a `match n { 0 => .. }`"""
+    out = []
+    for sw in sorted(b.live_blocks):
+        t = b.term(sw)
+        if t[0] != "switch" or t[1][0] not in ("c", "m"):
+            continue
+        locs, _calls, _ = backward_slice(b, t[1])
+        if call.dest[0] not in locs:
+            continue
+        sd = b.single_def(t[1][1][0])
+        if sd and sd[0] == "stmt" and sd[3][0] == "bin" and sd[3][1] in ("Eq", "Ne", "Gt", "Lt", "Le", "Ge"):
+            ops = sd[3][2:4]
+            ks = [o for o in ops if o[0] == "k" and o[1] == "int"]
+            if len(ks) != 1:
+                continue
+            kv, const_left = int(ks[0][3]), ops[0][0] == "k"
+            tt, ff = bool_edges(b, sw)
+            op = sd[3][1]
+            if const_left:
+                op = {"Gt": "Lt", "Lt": "Gt", "Le": "Ge", "Ge": "Le"}.get(op, op)
+            holds = {"Eq": 0 == kv, "Ne": 0 != kv, "Gt": 0 > kv, "Lt": 0 < kv, "Le": 0 <= kv, "Ge": 0 >= kv}[op]
+            if (op, kv) in (("Eq", 0), ("Ne", 0), ("Gt", 0), ("Lt", 1), ("Le", 0), ("Ge", 1)):
+                out.append((sw, tt if holds else ff))
+        else:
+            vals, other = switch_edges(b, sw)
+            if 0 in vals and b.local_ty(t[1][1][0]) in ("usize", "u64", "u32"):
+                out.append((sw, vals[0]))
+    return out
+
+
+def decided_edges(b, dj, key, value):
+    """CFG edges (u, v) leaving a branch on which the abstract fact `key == value` (e.g. ("call", bb) == 1: that call returned
+    true) becomes known: every disjunctive state on the edge has it, and not every state at the end of u had it already.
+    Independent of how the outcome travelled to the branch (directly, negated, through a boolean local assigned on several paths)."""
+    out = []
+    for u in sorted(b.live_blocks):
+        if b.term(u)[0] != "switch":
+            continue
+        before = dj.states_before_stmt(u, len(b.stmts(u)))
+        if before and all(in_set(st.get(key), {value}) for st in before):
+            continue
+        for v in b.succ[u]:
+            sts = dj.states_on_edge(u, v)
+            if sts and all(in_set(st.get(key), {value}) for st in sts):
+                out.append((u, v))
+    return out
